@@ -29,8 +29,12 @@ vars == <<i, verdict>>
 
 RangeOf(s) == {s[k] : k \in DOMAIN s}
 CountOf(s, x) == Cardinality({k \in DOMAIN s : s[k] = x})
-SameBag(a, b) == /\ Len(a) = Len(b)
-                 /\ \A x \in RangeOf(a) \cup RangeOf(b) : CountOf(a, x) = CountOf(b, x)
+(* multiset equality; linear-logarithmic when neither side has repeated rows *)
+SameBag(a, b) ==
+  /\ Len(a) = Len(b)
+  /\ IF Cardinality(RangeOf(a)) = Len(a) /\ Cardinality(RangeOf(b)) = Len(b)
+     THEN RangeOf(a) = RangeOf(b)
+     ELSE \A x \in RangeOf(a) \cup RangeOf(b) : CountOf(a, x) = CountOf(b, x)
 Keys(s) == {<<s[k][1], s[k][2]>> : k \in DOMAIN s}
 
 IsMissingRow(r) == r[7] < 0 \/ r[8] < 0
@@ -74,42 +78,34 @@ Judge(T) ==
     [] T.law = "REFINE" ->
          LET t2 == <<T.t2[1], T.t2[2]>>
              InScope(r) == ~Excluded(T.meas, T.op, t, r) /\ ~Excluded(T.meas, T.op, t2, r)
-             fa == [k \in DOMAIN Filter(A, LAMBDA r : InScope(r) /\ RowScoreSat(T.meas, T.op, t2, r)) |->
-                      Core(Filter(A, LAMBDA r : InScope(r) /\ RowScoreSat(T.meas, T.op, t2, r))[k])]
-             fb == [k \in DOMAIN Filter(B, InScope) |-> Core(Filter(B, InScope)[k])]
+             sa == Filter(A, LAMBDA r : InScope(r) /\ RowScoreSat(T.meas, T.op, t2, r))
+             sb == Filter(B, InScope)
+             fa == [k \in DOMAIN sa |-> Core(sa[k])]
+             fb == [k \in DOMAIN sb |-> Core(sb[k])]
          IN  IF SameBag(fa, fb) THEN {} ELSE {<<T.prop, "refinement", Len(fa), Len(fb)>>}
     [] T.law = "PARTITION" ->
          LET C == T.C
              opS == IF T.op = ">=" THEN ">" ELSE "<"
              InScope(r) == ~Excluded(T.meas, T.op, t, r) /\ ~Excluded(T.meas, opS, t, r) /\ ~Excluded(T.meas, "=", t, r)
-             ca == [k \in DOMAIN Filter(A, InScope) |-> Core(Filter(A, InScope)[k])]
-             cb == [k \in DOMAIN Filter(B, InScope) |-> Core(Filter(B, InScope)[k])]
-             cc == [k \in DOMAIN Filter(C, InScope) |-> Core(Filter(C, InScope)[k])]
+             sa == Filter(A, InScope)   sb == Filter(B, InScope)   sc == Filter(C, InScope)
+             ca == [k \in DOMAIN sa |-> Core(sa[k])]
+             cb == [k \in DOMAIN sb |-> Core(sb[k])]
+             cc == [k \in DOMAIN sc |-> Core(sc[k])]
          IN  (IF SameBag(ca, cb \o cc) THEN {} ELSE {<<T.prop, "operator-partition", Len(ca), Len(cb) + Len(cc)>>})
              \cup (IF Keys(cb) \cap Keys(cc) = {} THEN {} ELSE {<<T.prop, "partition-not-disjoint", 0, 0>>})
     [] T.law = "PIPE" ->
          LET InScope(r) == ~Excluded(T.meas, T.op, t, r)
-             Score4(r) == IF r[3] = 3 /\ T.meas \in RoundedMeasures
-                          THEN (* the matcher reports the unrounded score: round it exactly *)
-                               <<r[1], r[2], r[6], r[7], r[8]>>
-                          ELSE <<r[1], r[2], r[6], r[7], r[8]>>
              ja == Filter(A, InScope)   mb == Filter(B, InScope)
+             ca == [k \in DOMAIN ja |-> Core(ja[k])]
+             cb == [k \in DOMAIN mb |-> Core(mb[k])]
          IN  IF T.meas = "EDIT_DISTANCE"
              THEN (IF Keys(A) \subseteq Keys(B) THEN {} ELSE {<<T.prop, "join-not-in-pipeline", Len(A), Len(B)>>})
                   \cup (IF \A k \in DOMAIN B : (B[k][6] > 0 /\ ~IsMissingRow(B[k])) => <<B[k][1], B[k][2]>> \in Keys(A)
                         THEN {} ELSE {<<T.prop, "pipeline-pair-sharing-qgram-not-in-join", Len(A), Len(B)>>})
-                  \cup (IF \A k \in DOMAIN A : \A j \in DOMAIN B :
-                             (A[k][1] = B[j][1] /\ A[k][2] = B[j][2]) => A[k][4] = B[j][4]
+                  \cup (IF RangeOf([k \in DOMAIN A |-> Core(A[k])]) \subseteq RangeOf([k \in DOMAIN B |-> Core(B[k])])
                         THEN {} ELSE {<<T.prop, "scores-differ", 0, 0>>})
              ELSE (IF Keys(ja) = Keys(mb) THEN {} ELSE {<<T.prop, "key-pairs-differ", Len(ja), Len(mb)>>})
-                  \cup (IF \A k \in DOMAIN ja : \A j \in DOMAIN mb :
-                             (ja[k][1] = mb[j][1] /\ ja[k][2] = mb[j][2]) =>
-                                 (* the join's 4-decimal score is an admissible rounding of the matcher's score *)
-                                 (IF ja[k][3] = 2 /\ mb[j][3] = 3 THEN ja[k][4] \in R4Set(mb[j][4], mb[j][5])
-                                  ELSE IF ja[k][3] = 2 /\ mb[j][3] = 2 THEN ja[k][4] = mb[j][4]
-                                  ELSE IF ja[k][3] = 2 /\ mb[j][3] = 9 THEN TRUE
-                                  ELSE ja[k][3] = mb[j][3] /\ ja[k][4] * mb[j][5] = mb[j][4] * ja[k][5])
-                        THEN {} ELSE {<<T.prop, "scores-differ", 0, 0>>})
+                  \cup (IF Keys(ja) = Keys(mb) /\ ~SameBag(ca, cb) THEN {<<T.prop, "scores-differ", 0, 0>>} ELSE {})
     [] T.law = "SPLIT" ->
          IF /\ Len(T.sizes) = T.k
             /\ SumSeq(T.sizes) = T.n
